@@ -116,6 +116,29 @@ def run(index, rep, tier):
         nc, caches = c10.derived_cache_rule(index, rep, "R11.5", "dendropy.datamodel.taxonmodel.Taxon")
         rep.floor("R11.5", "stores to a field that feeds a lazily computed cache of Taxon", 1, nc)
 
+    # ---- R11.6
+    with rep.section("R11.6"):
+        rep.rule("R11.6", "unification reaches every component: DataSet.unify_taxon_namespaces migrates each tree list and each character matrix on every pass of its loops (no component is skipped, not even an empty one - it is filled later)")
+        un = index.function("dendropy.datamodel.datasetmodel.DataSet.unify_taxon_namespaces")
+        cfg = cfg_of(un)
+        nl = 0
+        for lp in walk_no_nested(un.node):
+            if not (isinstance(lp, ast.For) and norm(lp.iter) in ("self.tree_lists", "self.char_matrices")):
+                continue
+            nl += 1
+            heads = [x for x in cfg.nodes if x.kind == "for" and x.stmt is lp]
+            tv = norm(lp.target)
+            mig = lambda x, tv=tv: any(call_name(c) in ("migrate_taxon_namespace", "reconstruct_taxon_namespace") and isinstance(c.func, ast.Attribute) and norm(c.func.value) == tv for c in node_calls(x))
+            body_first = [d for l, d in heads[0].succ if any(d.stmt is st or any(d.stmt is y for y in ast.walk(st)) for st in lp.body)] if heads else []
+            esc = None
+            for x in cfg.reach(body_first, avoid=mig, follow_exc=False):
+                if x is heads[0] or x is cfg.exit:
+                    esc = x
+                    break
+            rep.check(bool(heads) and bool(body_first) and esc is None, "R11.6", un.qualname, "a component of %s can be skipped" % norm(lp.iter), fn_where(un, lp), "every item of %s is migrated" % norm(lp.iter),
+                      "DataSet.unify_taxon_namespaces has a path through its loop over %s that does not migrate the component: that tree list / matrix keeps its private namespace (which is no longer even listed in the data set), so trees or sequences put into it later are outside the unified namespace and equal labels end up on different taxa" % norm(lp.iter))
+        rep.floor("R11.6", "component loops in unify_taxon_namespaces", 2, nl)
+
     # ---- R11.3
     with rep.section("R11.3"):
         ns = 0
